@@ -22,7 +22,7 @@ func init() {
 	Register("C25", &Info{
 		Run:   runC25,
 		Quick: 6000, Thor: 500000,
-		Rule: "a world = one (version, cipher suite) pair negotiated by a single-suite client spec (TLS 1.3: the three suites; TLS 1.2: every documented suite; the client-only legacy ChaCha20 code points and the EnableWeakCiphers suites against the reference server, which is told to select them; TLS 1.0/1.1: the CBC suites) against the repository or std server or (a third of the worlds) the reference server, which shapes its records in every way the RFCs allow (TLS 1.3 padding, arbitrary fragment sizes, zero-length application_data records) and under TLS 1.3 sends 2-4 NewSessionTicket messages (separately or packed into one record) and KeyUpdate messages with and without update_requested between its echo writes; then a drawn sequence of client writes (0 B .. 40 kB, record boundaries) echoed by the server and read with drawn buffer sizes (1 B .. 32 kB), by one client task or by a writer and a reader task at once under a scheduler that may switch at lock acquisitions and right after unlocks; phase 1 establishes the connection, then the scheduler arms one fault on the live connection: bit flip at a drawn offset of the next application records, truncation (clean EOF mid-record or at a record boundary), connection reset, or an on-path attacker dropping / duplicating / swapping whole records; oracle: what each side read is a prefix of what the peer wrote; without a fault it is everything; after a flip/drop/dup/swap inside the data the receiver must return an error and deliver strictly less than everything; non-trivial = >=1 application record each way (fault stratum: the fault fired before the last record); distinct = (version, suite, peer, write sizes, read sizes, fault)",
+		Rule: "a world = one (version, cipher suite) pair negotiated by a single-suite client spec (TLS 1.3: the three suites; TLS 1.2: every documented suite; the client-only legacy ChaCha20 code points and the EnableWeakCiphers suites against the reference server, which is told to select them; TLS 1.0/1.1: the CBC suites) against the repository or std server or (a third of the worlds) the reference server, which shapes its records in every way the RFCs allow (TLS 1.3 padding, arbitrary fragment sizes, zero-length application_data records) and under TLS 1.3 sends 2-4 NewSessionTicket messages (separately or packed into one record) and KeyUpdate messages with and without update_requested between its echo writes; then a drawn sequence of client writes (0 B .. 40 kB, record boundaries) echoed by the server and read with drawn buffer sizes (1 B .. 32 kB), by one client task or by a writer and a reader task at once under a scheduler that may switch at lock acquisitions and right after unlocks; phase 1 establishes the connection, then the scheduler arms one fault on the live connection: bit flip at a drawn offset of the next application records, truncation (clean EOF mid-record or at a record boundary; or exactly 1-6 or 20 bytes into a record, or in the middle of it, after which the client's Read must return an error other than io.EOF), connection reset, or an on-path attacker dropping / duplicating / swapping whole records; oracle: what each side read is a prefix of what the peer wrote; without a fault it is everything; after a flip/drop/dup/swap inside the data the receiver must return an error and deliver strictly less than everything; non-trivial = >=1 application record each way (fault stratum: the fault fired before the last record); distinct = (version, suite, peer, write sizes, read sizes, fault)",
 		Assumptions: []string{"TLS 1.3 key updates are initiated by the reference server (sim/refsrv); client-initiated updates do not exist in this code base",
 			"EnableWeakCiphers is process-global: the C25 worker process enables it at start and never runs another property"},
 		Real: []string{"utls client record layer (UConn.Read/Write, halfConn) from /repo", "utls or std server"},
@@ -107,6 +107,8 @@ type recordAttacker struct {
 	seen   int
 	held   []byte
 	Fired  bool
+	cutKeep int
+	cutDone bool
 }
 
 func (a *recordAttacker) filter(w *simrt.World, d *simnet.Dir, b []byte) [][]byte {
@@ -136,6 +138,20 @@ func (a *recordAttacker) filter(w *simrt.World, d *simnet.Dir, b []byte) [][]byt
 			a.Fired = true
 			d.Fired["dup-record"]++
 			out = append(out, rec, append([]byte(nil), rec...))
+		case a.cutDone:
+			// behind the cut nothing arrives any more
+		case idx == a.at && a.kind == "cut":
+			// the stream ends inside this record: after 1-4 bytes of its header, after the header,
+			// or in the middle of its body - a clean EOF of the transport, which the receiver must
+			// report as an error (it is no end of the TLS stream)
+			a.Fired, a.cutDone = true, true
+			k := a.cutKeep
+			if k >= len(rec) {
+				k = len(rec) / 2
+			}
+			d.Fired["cut-inside-record"]++
+			d.CutNow = true
+			out = append(out, rec[:k])
 		case idx == a.at && a.kind == "swap":
 			a.Fired = true
 			d.Fired["swap-records"]++
@@ -183,7 +199,8 @@ func runC25(c *Ctx) {
 		// tiny read buffers make the server echo one record per read: keep those worlds small
 		crs, srs = 4096, 512
 	}
-	fault := []string{"none", "none", "flip", "flip", "eof", "reset", "drop", "dup", "swap"}[ch.Pick(9, "fault")]
+	fault := []string{"none", "none", "flip", "flip", "eof", "reset", "drop", "dup", "swap", "cut"}[ch.Pick(10, "fault")]
+	cutKeep := []int{1, 2, 3, 4, 5, 6, 20, 1 << 20}[ch.Pick(8, "cut-keep")]
 	dirAB := ch.Bool(50, "fault-dir-c2s")
 	foff := int64(0)
 	if total > 0 {
@@ -334,8 +351,8 @@ func runC25(c *Ctx) {
 		d.EOFAt = d.Total + foff
 	case "reset":
 		d.ResetAt = d.Total + foff
-	case "drop", "dup", "swap":
-		atk.armed, atk.kind, atk.at = true, fault, frec
+	case "drop", "dup", "swap", "cut":
+		atk.armed, atk.kind, atk.at, atk.cutKeep = true, fault, frec, cutKeep
 	}
 	var cwErr error
 	var wr *simrt.Task
@@ -446,6 +463,18 @@ func runC25(c *Ctx) {
 		return
 	}
 	// a fault fired inside the data stream
+	if fault == "cut" && !dirAB {
+		// the client's reader met a transport EOF inside a record: never a clean end of stream
+		// (when the cut lies behind the data - in the close_notify record - the client has everything
+		// and may have stopped reading: no claim then)
+		if len(cread) < total && (cioErr == nil || cioErr == io.EOF) {
+			c.Violate(fmt.Sprintf("truncation-reported-as-clean-end v=%x suite=%04x keep=%d", sc.ver, sc.suite, cutKeep), "%s: the server's stream was cut %d bytes into a record; the client read %d of %d bytes and its Read returned %v", c.R.Class, cutKeep, len(cread), total, cioErr)
+		}
+		return
+	}
+	if fault == "cut" {
+		return // (server side: prefix property only, as for eof)
+	}
 	assertDetect := fault == "flip" || frec == 0 // a later record may be the close_notify or lie beyond the data
 	switch {
 	case assertDetect && (fault == "flip" || fault == "drop" || fault == "swap"):
